@@ -1,55 +1,23 @@
-(* Proofs/C29.v — what a refused Checkout / Reset leaves behind. *)
+(* Proofs/C29.v — a refused Checkout / Reset leaves the state as it was
+   (examples on the repaired Checkout; the lemmas are in Proofs/Porcelain.v). *)
 From Coq Require Import List NArith ZArith Bool String.
 From GoGit Require Import Base.Out Model.Porcelain Proofs.PorcelainMaps Proofs.Porcelain Proofs.C25.
 Import ListNotations.
 Local Open Scope N_scope.
 
-(* did Checkout get as far as its final Reset? *)
-Definition pre_ok (o : copts) (s : state) : bool :=
-  match fst (checkout_pre o s) with None => true | Some _ => false end.
-
-Lemma checkout_err_frame : forall o s e s', checkout o s = (Some e, s') ->
-  commits s' = commits s /\ idx s' = idx s /\ wt s' = wt s /\
-  (forall n, n <> co_branch_name o -> lookup n (refs s') = lookup n (refs s)) /\
-  (pre_ok o s = false -> co_create o = false -> s' = s) /\
-  (pre_ok o s = false -> early_err e = true -> s' = s) /\
-  (pre_ok o s = true -> exists x, checkout_pre o s = (None, (x, s'))).
-Proof.
-  intros o s e s' H. unfold checkout in H. unfold pre_ok.
-  destruct (checkout_pre o s) as [[e1|] [[[c m] from] s2]] eqn:Ep; cbn [fst].
-  - inversion H; subst. destruct (checkout_pre_frame _ _ _ _ _ Ep) as (F1 & F2 & F3 & F4).
-    repeat split; auto.
-    + intros _ Hc. eapply checkout_pre_err_nocreate; eauto.
-    + intros _ He. eapply checkout_pre_early; eauto.
-    + discriminate.
-  - apply reset_err_unchanged in H. subst s'.
-    destruct (checkout_pre_frame _ _ _ _ _ Ep) as (F1 & F2 & F3 & F4).
-    repeat split; auto; try discriminate. intros _. eauto.
-Qed.
-
-(* witness of the defect: unstaged change to a, checkout of branch other
-   (commit 1) without Force: ErrUnstagedChanges, but HEAD already points at other *)
+(* the state on which the unrepaired code misbehaved: unstaged change to a;
+   branch other = commit 1 *)
 Definition o_other : bytes := (refs_heads ++ b "other")%list.
+Definition o_new : bytes := (refs_heads ++ b "new")%list.
 Definition c29_state : state :=
   mkState [[(b "a", (KReg, b "A0"))]; [(b "a", (KReg, b "A1"))]]
           [(master, 0%Z); (o_other, 1%Z)] (HSym master)
           [(b "a", (KReg, b "A0"))] [(b "a", (KReg, b "dirty"))].
 
-Lemma checkout_moves_head_then_refuses :
-  exists s', checkout (mkCopts o_other (-1) false false false) c29_state = (Some EUnstaged, s') /\
-             head c29_state = HSym master /\ head s' = HSym o_other.
-Proof. eexists. vm_compute. repeat split. Qed.
-
-(* ... and with Create the new branch exists afterwards *)
-Definition o_new : bytes := (refs_heads ++ b "new")%list.
-Lemma checkout_creates_branch_then_refuses :
-  exists s', checkout (mkCopts o_new 1 true false false) c29_state = (Some EUnstaged, s') /\
-             lookup o_new (refs c29_state) = None /\ lookup o_new (refs s') = Some 1%Z /\
-             head s' = HSym o_new.
-Proof. eexists. vm_compute. repeat split. Qed.
-
-(* Create with a hash that is no commit: the branch is created (dangling) before the lookup fails *)
-Lemma checkout_creates_dangling_branch :
-  exists s', checkout (mkCopts o_new 7 true false false) c29_state = (Some EObjectNotFound, s') /\
-             lookup o_new (refs s') = Some 7%Z.
-Proof. eexists. vm_compute. repeat split. Qed.
+Lemma refusals_leave_state :
+  checkout (mkCopts o_other (-1) false false false) c29_state = (Some EUnstaged, c29_state) /\
+  checkout (mkCopts o_new 1 true false false) c29_state = (Some EUnstaged, c29_state) /\
+  checkout (mkCopts o_new 7 true true false) c29_state = (Some EObjectNotFound, c29_state) /\
+  checkout (mkCopts o_other 1 false false false) c29_state = (Some EBranchHashExclusive, c29_state) /\
+  checkout (mkCopts o_other (-1) true true false) c29_state = (Some EBranchExists, c29_state).
+Proof. vm_compute. repeat split. Qed.
